@@ -120,6 +120,9 @@ func c16GenDHCP4(r *sim.Rand, tier string, cs *sim.Case) {
 	cs.Knobs["lease_s"] = int64(sim.Pick(r, 30, 120))
 	cs.Knobs["relaymask"] = int64(r.N(8))
 	cs.Knobs["radius"] = int64(r.Weighted(1, 3))
+	if cs.Knobs["radius"] == 1 && r.P(15) {
+		cs.Knobs["radslow"] = 1
+	}
 	// failing system calls: one kernel map with a single slot (1 MAC, 2 VLAN, 3 circuit-id fast-path map, 4 QoS ingress map)
 	cs.Knobs["mapfull"] = int64(r.Weighted(6, 2, 1, 1, 2))
 	if cs.Knobs["mapfull"] != 0 {
@@ -232,6 +235,7 @@ func c16RunDHCP4(c *sim.Ctx) {
 	if err != nil {
 		panic(err)
 	}
+	radSlow := cs.Knob("radslow", 0) == 1
 	pps := 1024
 	natFull := cs.Knob("natfull", 0) == 1
 	if natFull {
@@ -249,8 +253,14 @@ func c16RunDHCP4(c *sim.Ctx) {
 	acct := map[string]*c16acct{}
 	withRadius := cs.Knob("radius", 1) == 1
 	if withRadius {
+		// a legal, very low RADIUS request rate: requests queue for seconds behind one another
+		var rl bngradius.RateLimitConfig
+		if radSlow {
+			rl = bngradius.RateLimitConfig{RequestsPerSecond: 0.25, BurstSize: 1}
+			c.S.Probe("radius_rate_limit_0.25_per_s")
+		}
 		cl, err := bngradius.NewClient(bngradius.ClientConfig{Servers: []bngradius.ServerConfig{{Host: "radius.sim", Port: 1812, Secret: "s3cret"}},
-			NASID: "bng", Timeout: 3 * time.Second, Retries: 3}, zap.NewNop())
+			NASID: "bng", Timeout: 3 * time.Second, Retries: 3, RateLimit: rl}, zap.NewNop())
 		if err != nil {
 			panic(err)
 		}
@@ -478,6 +488,9 @@ func c16RunDHCP4(c *sim.Ctx) {
 		}
 	}
 	// quiescence: let asynchronous accounting finish
+	if radSlow {
+		sleep(100 * time.Second) // queued accounting requests drain at one per 4 s
+	}
 	c.S.Sleep(20 * time.Second)
 	// a lease whose time ran out less than two cleanup periods ago may
 	// legitimately still be held by the server: it is not audited as ended
